@@ -485,8 +485,28 @@ class CacheWorld:
             W.error = e
             self.harness_errors.append(f'worker {ti}: {type(e).__name__}: {e}')
 
+    def arm_absolute(self):
+        keep = []
+        for f in self.pending_faults:
+            if f.get('on') == 'abs':
+                k = int(f['step'])
+                while k in self.sch.at_step:
+                    k += 1
+                self.sch.at_step[k] = partial(self.fire_abs, f)
+            else:
+                keep.append(f)
+        self.pending_faults = keep
+
+    def fire_abs(self, f):
+        W = self.ws[f['thread']]
+        if W.loop is None:
+            self.count('stop.noop')
+            return
+        self.fire(dict(f, kind='stop'), W.loop)
+
     def main(self):
         sch = self.sch
+        self.arm_absolute()
         self.cache = self.make_cache()
         self.cached = self.aa.threadsafe_async_cache(self.func, cache=self.cache)
         ths = [sch.spawn(partial(self.worker, ti), f'w{ti}') for ti in range(len(self.ws))]
@@ -543,7 +563,15 @@ class CacheWorld:
                 self.viol('HARNESS', 'harness.quiescent', 'quiescent without a stuck caller',
                           repr([repr(t) for t in sch.threads]))
         elif end == 'stepcap':
-            self.viol('HARNESS', 'harness.stepcap', 'step cap hit while the clock advances', f'step {sch.step}')
+            stuck = [C for C in self.callers.values()
+                     if C.state in ('called', 'called-flagged') and C.loop.is_running()]
+            if stuck:
+                C = stuck[0]
+                self.viol('C05', 'cache.never_finishes', 'a caller on a running loop keeps waiting for ever (virtual time advances)',
+                          f'{len(stuck)} caller(s) still pending after {sch.step} steps at t={sch.clock}, e.g. {C.ti}.{C.ci} key {C.key} '
+                          f'called at t={C.t_call}')
+            else:
+                self.viol('HARNESS', 'harness.stepcap', 'step cap hit while the clock advances', f'step {sch.step}')
         # --- values (C01 / C14)
         succ = {}
         for J in self.invs:
@@ -681,4 +709,5 @@ def execute(prog, sspec, world_cls=CacheWorld, keep_log=False):
         'nontrivial': sch.nswitch_traced > 0 or any(k.endswith('.fired') or '.fired.' in k for k in fired),
         'log': sch.log_list if keep_log else None,
         'outcomes': [(C.ti, C.ci, C.key, C.outcome) for C in w.callers.values()],
+        'inv_spans': [(J.i, J.step, J.step_exit, J.how) for J in w.invs],
     }
